@@ -61,8 +61,9 @@ def variants_for(idx, tier):
     return v
 
 
-def run_batch(cgs, tier, seed, keep_dir=None):
-    """-> summary dict (JSON-able)"""
+def run_batch(cgs, tier, seed, keep_dir=None, variants_fn=None, owner=None):
+    """-> summary dict (JSON-able).  owner(cg, prop) may re-attribute a
+    disagreement (feature batches: inline, cfg, ... own what they vary)"""
     rng = random.Random(seed * 31 + 5)
     cases = []
     for cg in cgs:
@@ -75,6 +76,8 @@ def run_batch(cgs, tier, seed, keep_dir=None):
     idx_of = {cg["id"]: i for i, cg in enumerate(usable)}
 
     def variants(cg):
+        if variants_fn:
+            return variants_fn(cg, idx_of[cg["id"]])
         if cg.get("recovery"):
             i = idx_of[cg["id"]]
             return [("lane", "table")] + ([("lr1", "table")] if i % 3 == 0 else [("lalr", "table")] if i % 3 == 1 else [])
@@ -92,7 +95,8 @@ def run_batch(cgs, tier, seed, keep_dir=None):
                 m = eng_core.modname(cg["id"], algo, backend)
                 r = res[m]
                 if r["status"] == "ok":
-                    modules.append((m, r["rs"], cg["starts"]))
+                    modules.append((m, r["rs"], [(st, core.nt_name(cg, st), "0, " if cg.get("grammar_param") else "")
+                                                 for st in cg["starts"]]))
                 elif r["status"] in ("panic", "timeout", "abort"):
                     dis.append({"prop": "C18", "kind": r["status"], "m": m})
                 else:
@@ -106,6 +110,8 @@ def run_batch(cgs, tier, seed, keep_dir=None):
             gid, algo, backend = m.split("_")
             cg = byid[gid]
             ex = res[m]["export"]
+            if cg.get("inline") or cg.get("no_machine"):
+                continue   # the exported grammar is the inlined one; LRMachine is bound to core grammars only
             for a in ex["automata"]:
                 rc = core.run_case(cg, a["user"], bound_for(cg, tier), True, ex, a, backend, "%s@%s" % (m, a["user"]))
                 if rc is None:
@@ -138,7 +144,7 @@ def run_batch(cgs, tier, seed, keep_dir=None):
             gid, algo, backend = m.split("_")
             cg = byid[gid]
             recovery = bool(cg.get("recovery"))
-            for s in starts:
+            for s, _, _ in starts:
                 cid = "%s@%s" % (gid, s)
                 plan = {}   # (tuple(raw input), err_at) -> [sem rec | None, run rec | None, suffixed]
                 for rec in recs.get(cid, []):
@@ -170,6 +176,10 @@ def run_batch(cgs, tier, seed, keep_dir=None):
         ocs = eng_core.run_requests(binp, reqs, wd)
         if len(ocs) != len(reqs):
             raise ToolError("runner answered %d of %d requests" % (len(ocs), len(reqs)))
+        if owner:
+            for d in dis:
+                if d.get("cg"):
+                    d["prop"] = owner(d["cg"], d["prop"])
         pair = {}
         seen = set()
         for rid, (cid, m, srec, rrec, suffixed, inp) in meta.items():
@@ -208,7 +218,8 @@ def run_batch(cgs, tier, seed, keep_dir=None):
                 if key in seen:
                     continue
                 seen.add(key)
-                dis.append({"prop": prop, "kind": k, "backend": backend, "algo": algo, "gid": gid, "start": start,
+                dis.append({"prop": owner(cg, prop) if owner else prop, "kind": k, "backend": backend, "algo": algo,
+                            "gid": gid, "start": start,
                             "input": rec["input"], "err_at": rec["res"].get("at"), "detail": detail[:600],
                             "facts": _facts(prop, k, rec, oc), "cg": cg, "suffixed": suffixed, "raw_input": inp})
             if not recovery:
@@ -219,7 +230,8 @@ def run_batch(cgs, tier, seed, keep_dir=None):
                 if not eng_core.same_result(d["table"][0], d["ascent"][0]):
                     gid, start = cid.split("@")
                     rec = d["table"][1]
-                    dis.append({"prop": "C07", "kind": "backends_differ", "backend": "both", "algo": algo, "gid": gid,
+                    dis.append({"prop": owner(byid[gid], "C07") if owner else "C07", "kind": "backends_differ",
+                                "backend": "both", "algo": algo, "gid": gid,
                                 "start": start, "input": rec["input"], "err_at": at,
                                 "detail": "table: %s | ascent: %s" % (_short(d["table"][0]), _short(d["ascent"][0])),
                                 "facts": _facts("C07", "backends_differ", rec, d["ascent"][0], d["table"][0]),
@@ -244,6 +256,7 @@ def run_batch(cgs, tier, seed, keep_dir=None):
                 if _has_err(r["res"].get("value")):
                     nrec += 1
         return {"grammars_generated": len(cgs), "grammars_lr1": len(usable), "modules": len(modules),
+                "rejected": rejected[:500], "accepted_modules": [m for m, _, _ in modules],
                 "recovery_grammars": sum(1 for cg in usable if cg.get("recovery")),
                 "rejected_by_lalrpop": len(rejected), "records": sum(len(v) for v in recs.values()),
                 "record_kinds": kinds, "machine_records": sum(len(v) for v in rrecs.values()), "machine_record_kinds": rkinds,
@@ -404,7 +417,8 @@ def replay(obj):
     try:
         variants = [(obj["algo"], "table"), (obj["algo"], "ascent")] if obj["backend"] == "both" else [(obj["algo"], obj["backend"])]
         res = eng_core.generate([cg], lambda _: variants, wd)
-        mods = [(m, r["rs"], cg["starts"]) for m, r in res.items() if r["status"] == "ok"]
+        mods = [(m, r["rs"], [(st, core.nt_name(cg, st), "0, " if cg.get("grammar_param") else "") for st in cg["starts"]])
+                for m, r in res.items() if r["status"] == "ok"]
         binp, bad = eng_core.build_runner_isolating(mods, os.path.join(wd, "gen"), "runner-replay")
         reqs = []
         for i, (m, _, _) in enumerate(mods):
